@@ -144,10 +144,26 @@ def run(ctx):
         for t in inplace:
             nm = t.callee.short.split("::")[-1]
             kinds.append("difference" if nm in ("retain", "retain_mut") else ("union" if nm in ("extend", "append") else "other:[%s]" % nm))
-            rd = set()
-            for a in t.args[1:]:
-                rd |= set(cf._op_reads(a))
-            member_sets.append(frozenset(n2 for n2 in cf.slice_local(rd, data_only=True) if n2[0] == "L" and co.local_name(n2[1]) and "HashSet<" in co.local_ty(n2[1]) and not co.local_ty(n2[1]).startswith("std::vec::Vec<")))
+            # the set the operation takes its members from: the NEAREST named set behind the argument (through iterator
+            # adaptors, re-borrows and closure captures), not everything that set was computed from
+            near, work, seen_l = set(), [a.place.local for a in t.args[1:] if a.place is not None], set()
+            while work:
+                l_ = work.pop()
+                if l_ in seen_l:
+                    continue
+                seen_l.add(l_)
+                if co.local_name(l_) and "HashSet<" in co.local_ty(l_) and not co.local_ty(l_).startswith("std::vec::Vec<") and "Graph<" not in co.local_ty(l_):
+                    near.add(("L", l_))
+                    continue
+                for (_bb, d_) in co.assigns_to(l_):
+                    if getattr(d_, "k", None) == "call":
+                        work += [a_.place.local for a_ in d_.args[:1] if a_.place is not None]
+                    else:
+                        rv_ = d_.rv
+                        work += [o_.place.local for o_ in rv_.ops if o_.place is not None]
+                        if rv_.place is not None:
+                            work.append(rv_.place.local)
+            member_sets.append(frozenset(near))
 
         for s in writes:
             pr = {x.split("::")[-1] for x in producers(flows, co, s.rv.ops[0])} if s.rv.ops else set()
